@@ -454,12 +454,19 @@ func clientJar(s *simrt.Sim, info *harness.RunInfo) {
 	}
 	expect := func(host, reqPath string, now time.Time) []string { return expectRule(host, reqPath, now, false) }
 	pathDirectionReported := false
+	// "dom<i>" cookies: sent by one host with a Domain attribute that names another one. Whether the host
+	// that sent it gets it back is left open (the statement speaks of the host a cookie is stored for, and a
+	// client may well refuse such a line); no other host ever gets it
+	domOrigin := map[string]string{}
 	got := func(host, reqPath string) []string {
 		u := fasthttp.AcquireURI()
 		defer fasthttp.ReleaseURI(u)
 		_ = u.Parse([]byte(host), []byte("http://"+host+reqPath))
 		var out []string
 		for _, c := range jar.Get(u) {
+			if o, ok := domOrigin[string(c.Key())]; ok && o == hostKey(host) {
+				continue
+			}
 			out = append(out, string(c.Key())+"="+string(c.Value())+";"+string(c.Path()))
 		}
 		sort.Strings(out)
@@ -482,6 +489,9 @@ func clientJar(s *simrt.Sim, info *harness.RunInfo) {
 			if expSet[e] == 0 {
 				// why is it wrong?
 				nm := strings.SplitN(e, "=", 2)[0]
+				if o, ok := domOrigin[nm]; ok {
+					return "C18.jar.otherhost", fmt.Sprintf("cookie %s, which host %s sent with a Domain attribute, is returned for host %s", e, o, host)
+				}
 				if strings.HasPrefix(nm, "gone") {
 					return "C18.jar.server-expired-cookie-stored", fmt.Sprintf("cookie %s is returned although the only Set-Cookie line that ever carried it expired it on arrival (Max-Age=-1 / an Expires date in 1994)", e)
 				}
@@ -572,6 +582,11 @@ func clientJar(s *simrt.Sim, info *harness.RunInfo) {
 				d := time.Duration(s.Range(1, 6)) * time.Second
 				e.expires = now.Add(d)
 				ck.SetExpire(e.expires)
+			} else if s.Chance(200) {
+				// stored already expired: whatever it replaces is gone, and it is never handed out itself
+				e.expires = now.Add(-time.Hour)
+				ck.SetExpire(e.expires)
+				s.Count("probe_expired_cookie_stored_through_api")
 			}
 			if kind == 0 {
 				jar.SetByHost([]byte(hst), ck)
@@ -633,6 +648,17 @@ func clientJar(s *simrt.Sim, info *harness.RunInfo) {
 				sets = append(sets, "raw: "+raw)
 				s.Count("probe_set_cookie_line_fasthttp_cannot_parse")
 			}
+			if !strings.HasPrefix(hst, "[") && s.Chance(150) {
+				other := hosts[s.Draw(len(hosts))]
+				if hostKey(other) != hostKey(hst) {
+					nm := "dom" + strconv.Itoa(i)
+					raw := fmt.Sprintf("%s=v; Domain=%s%s; Path=/%s", nm, simrt.PickS(s, "", "."), hostKey(other), simrt.PickS(s, "", "; Max-Age=0"))
+					req.AddHeader("X-Raw-Set", raw)
+					sets = append(sets, "raw: "+raw)
+					domOrigin[nm] = hostKey(hst)
+					s.Count("probe_set_cookie_with_domain_of_another_host")
+				}
+			}
 			keepBoundary = false
 			cands := [][]string{expect(hst, rp, now), nil, expectRule(hst, rp, now, true), nil}
 			keepBoundary = true
@@ -649,6 +675,19 @@ func clientJar(s *simrt.Sim, info *harness.RunInfo) {
 			wire := strings.Split(string(resp.Body()), "; ")
 			if len(wire) == 1 && wire[0] == "" {
 				wire = nil
+			}
+			wireOther := ""
+			for wi := 0; wi < len(wire); wi++ {
+				if o, ok := domOrigin[strings.SplitN(wire[wi], "=", 2)[0]]; ok {
+					if o != hostKey(hst) {
+						wireOther = wire[wi]
+					}
+					wire = append(wire[:wi], wire[wi+1:]...)
+					wi--
+				}
+			}
+			if wireOther != "" {
+				s.Fail("C18.jar.otherhost", "%s: cookie %s, which another host sent with a Domain attribute, goes over the wire to %s", desc, wireOther, hst)
 			}
 			sort.Strings(wire)
 			match := -1
@@ -1007,7 +1046,9 @@ type fidClient struct {
 	ua, ref string
 	// the client-level user agent / referer given through the generic header API instead of the dedicated setter
 	uaViaHeader, refViaHeader bool
-	timeout                   time.Duration
+	// one more cookie given as a Cookie header through the generic header API ("" = none)
+	ckHeader string
+	timeout  time.Duration
 	baseURL                   bool
 }
 
@@ -1351,6 +1392,10 @@ func (g *fidGen) client(tag string) *fidClient {
 		cc.ref = g.val(fidRefAlpha, tag)
 		cc.refViaHeader = s.Chance(250)
 	}
+	if s.Chance(200) {
+		cc.ckHeader = g.val(fidCookieAlpha, tag)
+		s.Count("probe_cookie_configured_as_header")
+	}
 	cc.timeout = simrt.PickS(s, 0, 2*time.Second, 4*time.Second)
 	cc.baseURL = s.Chance(300)
 	return cc
@@ -1547,6 +1592,9 @@ func (cc *fidClient) apply(c *client.Client) {
 	case cc.ref != "":
 		c.SetReferer(cc.ref)
 	}
+	if cc.ckHeader != "" {
+		c.SetHeader("Cookie", "hck="+cc.ckHeader)
+	}
 	if cc.timeout > 0 {
 		c.SetTimeout(cc.timeout)
 	}
@@ -1556,8 +1604,8 @@ func (cc *fidClient) apply(c *client.Client) {
 }
 
 func (cc *fidClient) describe() string {
-	return fmt.Sprintf("client %s: %s | %s | %s | %s | ua=%q referer=%q timeout=%v baseURL=%v", cc.tag, fidDescribe("header", cc.hdr.calls), fidDescribe("param", cc.q.calls),
-		fidDescribe("cookie", cc.ck.calls), fidDescribe("path", cc.pp.calls), cc.ua, cc.ref, cc.timeout, cc.baseURL)
+	return fmt.Sprintf("client %s: %s | %s | %s | %s | Cookie header hck=%q | ua=%q referer=%q timeout=%v baseURL=%v", cc.tag, fidDescribe("header", cc.hdr.calls), fidDescribe("param", cc.q.calls),
+		fidDescribe("cookie", cc.ck.calls), fidDescribe("path", cc.pp.calls), cc.ckHeader, cc.ua, cc.ref, cc.timeout, cc.baseURL)
 }
 
 func (rq *fidReq) describe() string {
@@ -2338,6 +2386,9 @@ func clientFidelity(s *simrt.Sim, info *harness.RunInfo) {
 		}
 		for _, e := range rq.ck.items {
 			wantCk[e.k] = e.v
+		}
+		if cc.ckHeader != "" {
+			wantCk["hck"] = cc.ckHeader // a header configured on the client: it arrives, next to the cookies of the setters
 		}
 		for _, k := range sortedKeys(gotCk) {
 			for _, v := range gotCk[k] {
